@@ -29,7 +29,11 @@ fn payload_for(n: u16, shape: u64, rng: &mut crate::rng::Rng) -> Vec<u8> {
 
 /// oracle for one CRC-valid frame whose payload is `p`
 pub fn oracle_payload(p: &[u8], suffix: &[u8]) -> Result<&'static str, (String, String)> {
-    let mut f = frame(p);
+    oracle_payload_reserved(p, suffix, 0)
+}
+/// the six reserved header bits are not part of the classification
+pub fn oracle_payload_reserved(p: &[u8], suffix: &[u8], reserved: u8) -> Result<&'static str, (String, String)> {
+    let mut f = crate::frame::frame_with_reserved(p, reserved);
     f.extend_from_slice(suffix);
     let mf = MessageFrame::new(&f).map_err(|e| ("c14:valid-frame-rejected".to_string(), format!("{:?}", e)))?;
     let m = mf.get_message();
@@ -97,7 +101,7 @@ pub fn oracle_reverse(row: &registry::MsgRow, m: &Message) -> Result<(), (String
 
 pub fn run(ctx: &Ctx, replay: Option<&J>) -> CheckResult {
     let rule = "exhaustive over message numbers n=0..4095 x payload shapes {2 bytes, short random, 1023 zero/ones/random, sparse, random length} \
-        with and without trailing bytes, plus payloads of 0 and 1 byte; supported set = rows of the table in src/msg/message.rs (scanned at build \
+        with and without trailing bytes and with zero / random reserved header bits, plus payloads of 0 and 1 byte under all 64 reserved-bit patterns; supported set = rows of the table in src/msg/message.rs (scanned at build \
         time) which must equal the msgNNNN features and the all_msgs list of Cargo.toml; oracle: n not supported => MsgNotSupported{n}; supported \
         => variant of n or Corrupt; L<2 <=> Empty; typed.number()==n; reverse: every variant's default and decoded golden message is encoded \
         under its own number. all cases non-trivial; distinct = (n, shape, repetition)"
@@ -113,7 +117,7 @@ pub fn run(ctx: &Ctx, replay: Option<&J>) -> CheckResult {
         if case["kind"] == "payload" {
             let p = unhex(case["payload"].as_str().unwrap_or("")).unwrap_or_default();
             let s = unhex(case["suffix"].as_str().unwrap_or("")).unwrap_or_default();
-            if let Err((sig, msg)) = oracle_payload(&p, &s) {
+            if let Err((sig, msg)) = oracle_payload_reserved(&p, &s, case["reserved"].as_u64().unwrap_or(0) as u8) {
                 vs.push(Violation { property: "C14".into(), signature: sig, message: msg, case: case.clone() });
             }
         } else if case["kind"] == "reverse-default" {
@@ -150,7 +154,8 @@ pub fn run(ctx: &Ctx, replay: Option<&J>) -> CheckResult {
                     for with_suffix in [false, true] {
                         let suffix = if with_suffix { rng.bytes_len(1, 12) } else { Vec::new() };
                         ev.eval();
-                        let r = catch(|| oracle_payload(&p, &suffix));
+                        let reserved = if (shape + rep) % 2 == 0 { 0 } else { rng.below(64) as u8 };
+                        let r = catch(|| oracle_payload_reserved(&p, &suffix, reserved));
                         let r = match r {
                             Ok(r) => r,
                             Err(pm) => Err((panic_signature(&pm), format!("panic: {}", pm))),
@@ -171,7 +176,7 @@ pub fn run(ctx: &Ctx, replay: Option<&J>) -> CheckResult {
                                         property: "C14".into(),
                                         signature: sig,
                                         message: msg,
-                                        case: json!({"kind":"payload","payload":hex(&p),"suffix":hex(&suffix)}),
+                                        case: json!({"kind":"payload","payload":hex(&p),"suffix":hex(&suffix),"reserved":reserved}),
                                     });
                                 }
                             }
@@ -193,7 +198,18 @@ pub fn run(ctx: &Ctx, replay: Option<&J>) -> CheckResult {
         for with_suffix in [false, true] {
             let suffix = if with_suffix { rng.bytes_len(1, 8) } else { Vec::new() };
             ev.eval();
-            match oracle_payload(&p, &suffix) {
+            // payloads of 0 and 1 byte under every reserved-bit pattern
+            let mut r0 = oracle_payload(&p, &suffix);
+            for reserved in 1..64u8 {
+                if r0.is_ok() {
+                    ev.eval();
+                    r0 = oracle_payload_reserved(&p, &suffix, reserved);
+                    if r0.is_ok() {
+                        ev.distinct_by_construction += 1;
+                    }
+                }
+            }
+            match r0 {
                 Ok(c) => {
                     ev.distinct_by_construction += 1;
                     ev.class(&format!("{}/short", c));
